@@ -587,7 +587,8 @@ def _mm_near(p, rule):
 def _mm_klass(nd, p, rule):
     if "twin" in nd and set(nd) <= {"twin", "vals"}:
         return "twin=second-chain-on-same-input"
-    if "cshape" in nd and rule["id"] in ("min_max_rule", "max_min_rule") and set(nd) <= {"cshape", "vals", "cshape2", "xshape"}:
+    if "cshape" in nd and rule["id"] in ("min_max_rule", "max_min_rule") \
+            and set(nd) <= {"cshape", "vals", "cshape2", "xshape", "xpos", "twin"}:
         return "cshape=" + str(nd["cshape"]).replace(" ", "")
     return None
 
